@@ -650,7 +650,13 @@ func (ex *Exec) convert(fr *Frame, st *State, v Val, from, to types.Type) Val {
 	if _, ok := fu.(*types.Slice); ok && tok && tb.Info()&types.IsString != 0 {
 		// string(bytes)
 		b := v.(*Agg)
-		r := Fresh("bytestr", SStr)
+		// a function of the slice header and the byte heap: converting the same bytes twice (in the
+		// code and in a specification clause) denotes the same string
+		hn, hs := heapName(SInt)
+		r := UF("bytestr", SStr, b.F[0].(*Term), b.F[1].(*Term), b.F[2].(*Term), st.heap.array(hn, hs))
+		if r.hasBound {
+			return r
+		}
 		ex.fact(nil, Eq(SLen(r), b.F[2].(*Term)))
 		i := BoundVar("ci", SInt)
 		ex.fact(st, Forall([]*Term{i}, Implies(And(Le(IntT(0), i), Lt(i, b.F[2].(*Term))),
